@@ -1031,7 +1031,11 @@ def broadcast_shapes(*shapes):
 def _elemwise_handle_where(*args, **kwargs):
     function = kwargs.pop("elemwise_where_function")
     *args, where, out = args
-    if hasattr(out, "copy"):
+    if isinstance(out, np.generic):
+        # A 0-d block may arrive as a NumPy scalar (e.g. after an integer
+        # index was pushed into ``out``), which ufuncs reject as ``out=``.
+        out = np.array(out)
+    elif hasattr(out, "copy"):
         out = out.copy()
     return function(*args, where=where, out=out, **kwargs)
 
